@@ -92,6 +92,7 @@ def _splice(caller, bi, callee, assigns_of):
     t = caller['blocks'][bi]['term']
     loff = len(caller['locals'])
     boff = len(caller['blocks'])
+    caller.setdefault('inline_local_base', loff)
     for l in callee['locals']:
         caller['locals'].append({'i': l['i'] + loff, 'ty': l['ty']})
     span = t.get('span')
